@@ -73,7 +73,7 @@ func runMuxFault(period int, ops []muxOp, failAt int, oneShot bool) []faultCall 
 
 func (c18) Gen(r *Rng, tier string, emit func(string, Tok)) {
 	// ---- reader side: every byte offset of small inputs as failure point, partial reads before it ----
-	nr := scale(tier, 2, 20)
+	nr := scale(tier, 4, 20)
 	for k := 0; k < nr; k++ {
 		m := genRefStream(r, streamOpts{PESPIDs: r.Range(1, 2), UnitsPerPID: r.Range(1, 2), MaxPES: 300, Tables: true, SmallChunks: r.Bool()})
 		data := m.bytes()
@@ -92,7 +92,7 @@ func (c18) Gen(r *Rng, tier string, emit func(string, Tok)) {
 			emit("reader-fault", L(I(1), scenario{kind: kind, optSize: opt, fault: off, chunks: ch, data: data, ops: []int{op}}.tok()))
 		}
 		// inside the detection window, every offset, every reader kind
-		for off := 0; off <= 200; off += scale(tier, 5, 1) {
+		for off := 0; off <= 200; off += scale(tier, 2, 1) {
 			for kind := 0; kind < 3; kind++ {
 				emit("reader-fault-detect", L(I(1), scenario{kind: kind, optSize: 0, fault: off, chunks: []int{r.Range(1, 64)}, data: data, ops: []int{[]int{3, 4}[r.Intn(2)]}}.tok()))
 			}
@@ -123,7 +123,8 @@ func (c18) Gen(r *Rng, tier string, emit func(string, Tok)) {
 			addHistory(r.Range(1, 3), g.ops)
 		}
 	}
-	for k := 0; k < scale(tier, 0, 30); k++ {
+	nCrafted := len(histories)
+	for k := 0; k < scale(tier, 3, 30); k++ {
 		period, ops := muxHistory(r, tier, r.Range(3, 6))
 		addHistory(period, ops)
 	}
@@ -160,11 +161,18 @@ func (c18) Gen(r *Rng, tier string, emit func(string, Tok)) {
 		}
 		_ = calls
 		step := 1
-		if total > 60 && tier != "thorough" {
+		crafted := hi < nCrafted
+		if !crafted && total > 60 && tier != "thorough" {
 			step = total/60 + 1
 		}
 		for k := 0; k < total; k += step {
-			emit("writer-fault", L(I(2), I(int64(period)), muxCaseTok(period, ops).At(1), I(int64(k)), Bool(r.Bool())))
+			if crafted {
+				// every Write index, permanent and one-shot
+				emit("writer-fault-all", L(I(2), I(int64(period)), muxCaseTok(period, ops).At(1), I(int64(k)), Bool(false)))
+				emit("writer-fault-all", L(I(2), I(int64(period)), muxCaseTok(period, ops).At(1), I(int64(k)), Bool(true)))
+			} else {
+				emit("writer-fault", L(I(2), I(int64(period)), muxCaseTok(period, ops).At(1), I(int64(k)), Bool(r.Bool())))
+			}
 		}
 	}
 }
